@@ -347,13 +347,14 @@ func (c10vs) SetWriter(w io.Writer) {}
 func (c10vs) WriteValue(v any)      {}
 
 type c10world struct {
-	shared1 slog.Attrs // the ONE caller-owned Attrs value (len 1, spare capacity) handed to every SetAttrs1(s1)
-	sharedW slog.Attrs // same for WithAttrs1(w1,w2)
-	L       []*slog.Entry
-	rec     *recorder
-	w1      io.Writer
-	w2      io.Writer
-	vs      slog.ValueStringer
+	shared1            slog.Attrs  // the ONE caller-owned Attrs value (len 1, spare capacity) handed to every SetAttrs1(s1)
+	sharedW            slog.Attrs  // same for WithAttrs1(w1,w2)
+	sharedSA, sharedWA []slog.Attr // the variadic slices handed to SetAttrs(sa...) / WithAttrs(wa...)
+	L                  []*slog.Entry
+	rec                *recorder
+	w1                 io.Writer
+	w2                 io.Writer
+	vs                 slog.ValueStringer
 }
 
 var c10rootNames = []string{"detached anonymous slog.New()", "slog.New(root, WithLevel(Info))", "slog.Default()", "root and child both given the same caller-owned Attrs value"}
@@ -364,6 +365,8 @@ func c10newWorld(root int) (*c10world, mWorld) {
 	iw := &c10world{rec: &recorder{}, vs: c10vs{}}
 	iw.shared1 = append(make(slog.Attrs, 0, 8), slog.NewAttr("s1", true))
 	iw.sharedW = append(make(slog.Attrs, 0, 8), slog.NewAttr("w1", 1), slog.NewAttr("w2", "x"))
+	iw.sharedSA = append(make([]slog.Attr, 0, 8), slog.NewAttr("sa", 1))
+	iw.sharedWA = append(make([]slog.Attr, 0, 8), slog.NewAttr("wa", 1))
 	iw.w1 = &plainW{"w1", iw.rec}
 	iw.w2 = &closerW{plainW: plainW{"w2", iw.rec}}
 	m := mWorld{DefaultLevel: int(slog.GetLevel()), DefaultIdx: -1}
@@ -430,7 +433,7 @@ func (iw *c10world) apply(o c10op, m mWorld) (ret *slog.Entry, hasRet bool, pan 
 		case "WithTimeFormat(2006)":
 			ret = l.WithTimeFormat("2006")
 		case "WithAttrs(wa)":
-			ret = l.WithAttrs(slog.NewAttr("wa", 1))
+			ret = l.WithAttrs(iw.sharedWA...)
 		case "WithAttrs1(w1,w2)":
 			ret = l.WithAttrs1(iw.sharedW)
 		case "With(wk,2)":
@@ -462,7 +465,7 @@ func (iw *c10world) apply(o c10op, m mWorld) (ret *slog.Entry, hasRet bool, pan 
 		case "SetTimeFormat()":
 			ret = l.SetTimeFormat()
 		case "SetAttrs(sa)":
-			ret = l.SetAttrs(slog.NewAttr("sa", 1))
+			ret = l.SetAttrs(iw.sharedSA...)
 		case "SetAttrs1(s1)":
 			ret = l.SetAttrs1(iw.shared1)
 		case "Set(sk,3)":
